@@ -39,6 +39,7 @@ PROPS["C16"] = {
                        "tiers": {"quick": T(60, 3, timeout=300), "thorough": T(1500, 4, timeout=3000)}},
         "nogloballock": {"pkg": "./internal/cache", "run": "^TestVerifC16NoGlobalLock$", "engine": "gotest",
                          "tiers": {"quick": T(1, 1, timeout=300), "thorough": T(1, 1, timeout=300)}},
+        "lifetimes": {"pkg": "./middleware/cache", "run": "^TestVerifC16Lifetimes$", "tiers": {"quick": T(80, 8, timeout=600), "thorough": T(1500, 12, timeout=3000)}},
         "limiterstore": {"pkg": "./middleware/ratelimit", "run": "^TestVerifC16LimiterStore$",
                          "tiers": {"quick": T(1500, 2, timeout=300), "thorough": T(60000, 4, timeout=3000)},
                          "floors": {"C16.limiterstore": {"insert-at-the-bound": 0.5, "sampled-eviction-path": 0.15}}},
